@@ -317,7 +317,9 @@ fn main() {
     "case = one (entry point, input) execution under the panic monitor; inputs come from directed hostile lists, \
      exhaustive short strings over an adversarial alphabet after valid prefixes, grammar-aware random structures with \
      defects, and byte/JSON-structure mutation of the repo's own fixtures and of tokens/documents signed by harness keys; \
-     non-trivial+distinct = (entry point, accepted|rejected, generator) classes; every accepted value gets the accessor sweep",
+     non-trivial+distinct = (entry point, accepted|rejected, generator) classes; every accepted value gets the accessor sweep; \
+     multi-layer encodings carry hostile inner texts (char-boundary ladders: every byte offset inside a multi-byte character in some variant); \
+     structurally self-referential inputs (cyclic webs of documents, recursive schema references; feature sdjwtvc) run as isolated child-process probes",
   );
   let world = world::World::new();
   cx.rep.note("seed_corpus", json!({"json": world.seeds.json.len(), "jws": world.seeds.jws.len(), "dids": world.seeds.dids.len()}));
